@@ -414,6 +414,26 @@ fn history(front: Front, reg: Reg, rng: &mut Prng, col: &mut Collector) {
             // unanswered uplink, the async one six)
             dev.log.borrow_mut().fault_at = Some(base + rng.below(7) as usize);
         }
+        // now and then the application first tries a payload no frame can hold (250 octets): the call is
+        // refused, nothing goes on the air, and nothing of the session's header state (an owed ACK, the
+        // connectivity count) is used up by it
+        if rng.chance(1, 25) {
+            let too_long = vec![0x77u8; 250];
+            let ev1 = dev.ev_len();
+            let r = dev.transact(Action::Send { data: &too_long, port: 4, confirmed: rng.bool() }, &Script::silent());
+            if let Resp::Panic(m, l) = &r {
+                col.violation(&format!("C12|panic|{}|{}", reg.name(), short_loc(l)), "device panicked during an ADR history", json!({"msg": m, "loc": l, "recent": recent}));
+                return;
+            }
+            if dev.tx_since(ev1).is_empty() {
+                col.event("refused_overlong_sends");
+                recent.push("send(250 octets) refused".into());
+            } else {
+                // (a stack that sends it after all has made an uplink the model knows nothing about)
+                col.event("overlong_send_went_out");
+                return;
+            }
+        }
         // one uplink in eight is a MAC-only one: FPort 0 without payload
         let (data, port): (Vec<u8>, u8) = if rng.chance(1, 8) { (vec![], 0) } else { (vec![step as u8], 3) };
         if port == 0 {
